@@ -331,9 +331,45 @@ def do_history(case):
         shutil.rmtree(d, ignore_errors=True)
 
 
+def do_codegen(case):
+    """one phase of the codegen scenario; every phase runs in its own process (dlopen caches libraries):
+    1: transfer(o1) to completion; 2: transfer(o2) killed after the libraries are written and before the
+    cache file is opened; 3: transfer(o1) judged against a fresh compile"""
+    a = api()
+    name, d = case["name"], case["dir"]
+    text = case["template"].replace("@N@", "0")
+    mo = os.path.join(d, name + ".mo")
+    os.chdir(d)
+    if case["phase"] == 1:
+        open(mo, "w").write(text)
+        os.utime(mo, (T0, T0))
+        m = a.transfer_model(d, name, dict(case["o1"]))
+        return {"out": type(m).__name__, "files": sorted(os.listdir(d))}
+    if case["phase"] == 2:
+        def boom():
+            raise SimCrash()
+        try:
+            with Cutter(a, 0, boom) as c:
+                a.transfer_model(d, name, dict(case["o2"]))
+            return {"out": "completed", "fired": c.fired}
+        except SimCrash:
+            return {"out": "Died", "fired": True}
+    try:
+        m = a.transfer_model(d, name, dict(case["o1"]))
+    except BaseException as e:  # noqa
+        return {"out": "Raised", "exc": type(e).__name__, "msg": str(e)[:200]}
+    s, ref = signature(m), reference(name, text, case["o1"])
+    r = {"out": "Loaded" if isinstance(m, a.CachedModel) else "Recompiled", "sig_ok": s == ref}
+    if s != ref:
+        r["sig"], r["ref"] = s["vals"], ref["vals"]
+    return r
+
+
 def handler(case):
     if case["kind"] == "sweep":
         return do_sweep(case)
+    if case["kind"] == "codegen":
+        return do_codegen(case)
     return do_history(case)
 
 
